@@ -1,0 +1,49 @@
+//go:build verif
+
+package tbtc
+
+import (
+	"math/big"
+
+	"github.com/keep-network/keep-core/pkg/chain"
+	"github.com/keep-network/keep-core/pkg/protocol/group"
+)
+
+// Verification hook (build tag verif): re-exports existing identifiers only.
+
+// VerifC10SigningSelection builds a signingRetryLoop with the real
+// constructor, positions it at the given attempt and runs the unexported
+// performMembersSelection. The attempt seed derived by the constructor is
+// returned as well.
+func VerifC10SigningSelection(
+	message *big.Int,
+	memberIndex group.MemberIndex,
+	operators chain.Addresses,
+	groupParameters *GroupParameters,
+	attemptCounter uint,
+	readyMembersIndexes []group.MemberIndex,
+) ([]group.MemberIndex, int64, error) {
+	srl := newSigningRetryLoop(
+		nil, message, 0, memberIndex, operators, groupParameters, nil, nil,
+	)
+	srl.attemptCounter = attemptCounter
+	excluded, err := srl.performMembersSelection(readyMembersIndexes)
+	return excluded, srl.attemptSeed, err
+}
+
+// VerifC10DkgSelection is the same for the dkgRetryLoop.
+func VerifC10DkgSelection(
+	seed *big.Int,
+	memberIndex group.MemberIndex,
+	operators chain.Addresses,
+	groupParameters *GroupParameters,
+	attemptCounter uint,
+	readyMembersIndexes []group.MemberIndex,
+) ([]group.MemberIndex, int64, error) {
+	drl := newDkgRetryLoop(
+		nil, seed, 0, memberIndex, operators, groupParameters, nil, 0,
+	)
+	drl.attemptCounter = attemptCounter
+	excluded, err := drl.performMembersSelection(readyMembersIndexes)
+	return excluded, drl.attemptSeed, err
+}
